@@ -583,9 +583,43 @@ func c03ProgTraces(r *core.Run) {
 			}
 		})
 		r.Count("program_traces_mutated", per)
+		// directed: every number of the traceback (goroutine id, line numbers, offsets, argument words) replaced by
+		// every boundary value of a decimal/hex parser, one at a time, sources still present
+		numRe := regexp.MustCompile(`[0-9]+`)
+		locs := numRe.FindAllIndex(bp.trace, -1)
+		if len(locs) > 400 {
+			locs = locs[:400]
+		}
+		core.Parallel(len(locs), workers(), func(li int) {
+			for _, v := range numberBoundaries {
+				in := append(append(append([]byte{}, bp.trace[:locs[li][0]]...), v...), bp.trace[locs[li][1]:]...)
+				var p any
+				var st string
+				func() {
+					defer func() {
+						if p = recover(); p != nil {
+							st = string(debug.Stack())
+						}
+					}()
+					s, _, _, _ := scanAll(in, opts)
+					if s != nil {
+						_ = s.Aggregate(stack.AnyPointer)
+					}
+				}()
+				r.Eval(1)
+				r.Count("program_trace_numbers_replaced", 1)
+				if p != nil {
+					r.Violation(panicKey(st), fmt.Sprintf("panic on a real traceback (sources present) in which one number was replaced by %s: %v\n%s", v, p, core.Trunc(st, 1200)), "mut", &c03Case{Input: in, Opts: "plain", Idx: li})
+					return
+				}
+			}
+		})
 		_ = os.RemoveAll(bp.dir)
 	}
 }
+
+var numberBoundaries = []string{"0", "00000000000000000000001", "2147483647", "2147483648", "4294967295", "4294967296", "999999999999999999", "1000000000000000000",
+	"9223372036854775807", "9223372036854775808", "9999999999999999999", "18446744073709551615", "18446744073709551616", "99999999999999999999", "-1", ""}
 
 // c03RealCrashes: the output of every crash scenario of the repository's cmd/panic (built from the tree under
 // test, also with -race) goes through the whole pipeline with every option set, as is and corrupted.
